@@ -433,9 +433,13 @@ async fn run_case(spec: &Spec, seed: u64) -> Ran {
                 }
                 let scan_from = socks[*sock].log.len();
                 // the reply (if any) is the synchronisation point
+                // (bounded by yields to the runtime, not only by wall time: the agent runs on this thread, and a
+                //  descheduled process must not turn into a spurious "no reply")
                 let deadline = Instant::now() + Duration::from_millis(80);
                 let mut got = false;
-                while Instant::now() < deadline && !got {
+                let mut spins = 0;
+                while (Instant::now() < deadline || spins < 40) && !got {
+                    spins += 1;
                     tokio::time::sleep(Duration::from_millis(1)).await;
                     let incoming: Vec<(Vec<u8>, SocketAddr)> = match via_tcp {
                         Some(i) => tcps[i].frames().into_iter().map(|f| (f, agent_addr)).collect(),
@@ -544,7 +548,9 @@ async fn run_case(spec: &Spec, seed: u64) -> Ran {
             HOp::Capture { sock, round, nom } => {
                 let deadline = Instant::now() + Duration::from_millis(250);
                 let mut found: Option<([u8; 12], bool)> = None;
-                while Instant::now() < deadline && found.is_none() {
+                let mut spins = 0;
+                while (Instant::now() < deadline || spins < 60) && found.is_none() {
+                    spins += 1;
                     socks[*sock].drain();
                     let sk = &mut socks[*sock];
                     while sk.seen < sk.log.len() {
